@@ -117,6 +117,13 @@ fn witnesses() -> Vec<(&'static str, &'static str, &'static str)> {
         ("two-type-instances-of-one-spelling-one-inside-the-other", "struct X { a: int32 }\nstruct X__X { a: int32 }\nenum Flip[A, B] { End(A, B), More(A, Flip[B, A]) }\nfn depth[A, B](f: Flip[A, B]) -> int32 { match f { Flip::End(a, b) => 0, Flip::More(a, r) => 1 + depth(r) } }\nfn main() { let e: Flip[X__X, X] = Flip::End(X__X { a: 1 }, X { a: 2 }); let m: Flip[X, X__X] = Flip::More(X { a: 3 }, e); string_println(int32_to_string(depth(m))) }\n", "1\n"),
         ("two-type-instances-of-one-spelling-one-inside-the-other-struct", "struct X { a: int32 }\nstruct X__X { a: int32 }\nenum Opt[T] { Non, Som(T) }\nstruct Flip[A, B] { a: A, next: Opt[Flip[B, A]] }\nfn main() { let e: Flip[X__X, X] = Flip { a: X__X { a: 1 }, next: Opt::Non }; let m: Flip[X, X__X] = Flip { a: X { a: 3 }, next: Opt::Som(e) }; string_println(int32_to_string(m.a.a)) }\n", "3\n"),
         ("instance-of-a-type-named-like-an-instance-inside-it", "struct X { a: int32 }\nstruct Y { a: int32 }\nstruct Pair__X[T] { t: T }\nstruct Pair[A, B] { a: A, p: Pair__X[B] }\nfn main() { let v: Pair[X, Y] = Pair { a: X { a: 1 }, p: Pair__X { t: Y { a: 2 } } }; string_println(int32_to_string(v.a.a * 10 + v.p.t.a)) }\n", "12\n"),
+        // a variant spelled like a struct the compiler makes up, in a program that has that struct
+        ("variant-vs-struct-instance", "struct Box[T] { v: T }\nenum Tag { Box__int32, Other(int32) }\nfn g(t: Tag) -> int32 { match t { Tag::Box__int32 => 1, Tag::Other(v) => v } }\nfn main() { let b = Box { v: 5 }; string_println(int32_to_string(g(Tag::Box__int32) + g(Tag::Other(2)) + b.v)) }\n", "8\n"),
+        ("variant-vs-closure-environment", "enum Tag { closure_env_f_0(int32), Other(int32) }\nfn g(t: Tag) -> int32 { match t { Tag::closure_env_f_0(k) => k, Tag::Other(v) => v } }\nfn main() { let z = 1; let f = |q: int32| q + z; string_println(int32_to_string(g(Tag::closure_env_f_0(1)) + g(Tag::Other(2)) + f(5))) }\n", "9\n"),
+        ("variant-vs-tuple-struct", "enum Tag { Tuple2_int32_bool, Other(int32) }\nfn g(t: Tag) -> int32 { match t { Tag::Tuple2_int32_bool => 1, Tag::Other(v) => v } }\nfn main() { let p = (5, true); string_println(int32_to_string(g(Tag::Tuple2_int32_bool) + g(Tag::Other(2)) + p.0)) }\n", "8\n"),
+        ("variant-vs-reference-cell-struct", "enum Tag { ref_int32_x(int32), Other(int32) }\nfn g(t: Tag) -> int32 { match t { Tag::ref_int32_x(k) => k, Tag::Other(v) => v } }\nfn main() { let r = ref(5); string_println(int32_to_string(g(Tag::ref_int32_x(1)) + g(Tag::Other(2)) + ref_get(r))) }\n", "8\n"),
+        ("variant-vs-trait-object-struct", "trait Tr { fn m(Self) -> int32; }\nimpl Tr for int32 { fn m(self: int32) -> int32 { self } }\nenum Tag { dyn__Tr, Other(int32) }\nfn g(t: Tag) -> int32 { match t { Tag::dyn__Tr => 1, Tag::Other(v) => v } }\nfn main() { let d: dyn Tr = 5; string_println(int32_to_string(g(Tag::dyn__Tr) + g(Tag::Other(2)) + Tr::m(d))) }\n", "8\n"),
+        ("variant-vs-enum-instance", "enum Opt[T] { Non, Som(T) }\nenum Tag { Opt__int32, Other(int32) }\nfn g(t: Tag) -> int32 { match t { Tag::Opt__int32 => 1, Tag::Other(v) => v } }\nfn main() { let o: Opt[int32] = Opt::Som(5); let k = match o { Opt::Som(v) => v, Opt::Non => 0 }; string_println(int32_to_string(g(Tag::Opt__int32) + g(Tag::Other(2)) + k)) }\n", "8\n"),
         ("two-instances-of-one-spelling", "struct X__B_Y { a: int32 }\nstruct Z { a: int32 }\nstruct X { a: int32 }\nstruct Y__B_Z { a: int32 }\nfn first[A, B](a: A, b: B) -> A { a }\nfn main() { let p = first(X__B_Y { a: 1 }, Z { a: 2 }); let q = first(X { a: 3 }, Y__B_Z { a: 4 }); string_println(int32_to_string(p.a) + int32_to_string(q.a)) }\n", "13\n"),
         ("tuple-struct-vs-user-struct", "struct Tuple2_int32_bool { k: int32 }\nfn main() { let t = (1, true); let u = Tuple2_int32_bool { k: 2 }; string_println(int32_to_string(t.0 + u.k)) }\n", "3\n"),
         ("closure-env-vs-user-struct", "struct closure_env_f_0 { k: int32 }\nfn main() { let z = 1; let f = |q: int32| q + z; let u = closure_env_f_0 { k: 2 }; string_println(int32_to_string(f(3) + u.k)) }\n", "6\n"),
